@@ -98,19 +98,14 @@ func ParseFloat(b []byte) (float64, int) {
 		// 0 * math.Pow10(out of range) is NaN
 		return f, i
 	}
-	h := f * math.Pow10(int(-mantExp))
-	h *= math.Pow10(int(expExp))
-	if h == 0.0 || math.IsInf(h, 0) {
-		// either factor alone can leave math.Pow10's [-323,308] domain
-		if exp < -308 {
-			f *= math.Pow10(-308)
-			exp += 308
-		} else if 308 < exp {
-			f *= math.Pow10(308)
-			exp -= 308
-		}
-		h = f * math.Pow10(int(exp))
+	// f is a non-zero integer, so 308 < exp overflows to infinity in the multiplication below; for large
+	// negative exponents scale in steps so that every power of ten used is a normal float64: math.Pow10
+	// is subnormal (and thus imprecise) below 1e-307 and zero below 1e-323
+	for exp < -290 && f != 0.0 {
+		f *= 1e-290
+		exp += 290
 	}
+	h := f * math.Pow10(int(exp))
 	return h, i
 }
 
